@@ -44,19 +44,55 @@ pub fn child_main() -> i32 {
     }
     // a fresh HashMap per process already has fresh hash seeds; also perturb the allocator state a little
     let _ballast: Vec<Vec<u8>> = (0..(std::process::id() % 13) as usize).map(|i| vec![0u8; 17 + i * 31]).collect();
+    let mut frames: Vec<&[u8]> = Vec::new();
     let mut at = 0;
-    let out = std::io::stdout();
-    let mut out = out.lock();
     while at + 4 <= input.len() {
         let len = u32::from_le_bytes([input[at], input[at + 1], input[at + 2], input[at + 3]]) as usize;
         at += 4;
-        let bytes = &input[at..at + len];
+        frames.push(&input[at..at + len]);
         at += len;
-        let line = match write_once(bytes) {
-            Ok(v) => digest(&v),
-            Err(e) => format!("ERR {e}"),
-        };
-        let _ = writeln!(out, "{line}");
+    }
+    let one = |bytes: &[u8]| match write_once(bytes) {
+        Ok(v) => digest(&v),
+        Err(e) => format!("ERR {e}"),
+    };
+    // the very first writes of this process are made by 8 threads released together (whatever the writer initialises
+    // lazily is initialised under contention); their output is compared with the sequential writes below
+    let k = frames.len().min(8);
+    let mut raced: Vec<Vec<String>> = vec![Vec::new(); k];
+    if k > 0 {
+        let gate = std::sync::atomic::AtomicUsize::new(0);
+        let results: Vec<(usize, String)> = std::thread::scope(|sc| {
+            let hs: Vec<_> = (0..8usize)
+                .map(|t| {
+                    let (frames, gate, one) = (&frames, &gate, &one);
+                    sc.spawn(move || {
+                        gate.fetch_add(1, std::sync::atomic::Ordering::AcqRel);
+                        while gate.load(std::sync::atomic::Ordering::Acquire) < 8 {
+                            std::hint::spin_loop();
+                        }
+                        (t % k, one(frames[t % k]))
+                    })
+                })
+                .collect();
+            hs.into_iter().filter_map(|h| h.join().ok()).collect()
+        });
+        for (i, d) in results {
+            raced[i].push(d);
+        }
+    }
+    let out = std::io::stdout();
+    let mut out = out.lock();
+    for (i, bytes) in frames.iter().enumerate() {
+        let seq = one(bytes);
+        match raced.get(i).and_then(|rs| rs.iter().find(|r| **r != seq)) {
+            Some(r) => {
+                let _ = writeln!(out, "{r} (a thread racing the first write of the process; sequentially {seq})");
+            }
+            None => {
+                let _ = writeln!(out, "{seq}");
+            }
+        }
     }
     0
 }
